@@ -443,7 +443,7 @@ async fn hier_case(rng: &mut Rng, sh: &mut Shard) -> Result<(bool, String), (Str
 
 fn tweak(cfg: &mut Cfg, rng: &mut Rng) {
     cfg.group = rng.range(2, 9) as usize;
-    cfg.bloom = *rng.pick(&[1u8, 1, 1, 0]);
+    cfg.bloom = *rng.pick(&[1u8, 1, 1, 0, 1, 1, 1, 2]);
     cfg.allow_dup = true;
     // a third of the histories re-open the directory under another bloom configuration at every restart
     cfg.bloom_flip = rng.chance(1, 3);
